@@ -209,3 +209,8 @@ Proof.
       * now destruct (as_num (eval sg L)).
     + rewrite CS. now destruct (create_number (in_body (WBin pm l r))).
 Qed.
+(* two different symbols are never looked up as the same atom argument *)
+Theorem distinct_symbols_stay_distinct : forall s1 s2, wfs s1 = true -> wfs s2 = true -> create_symbol (encode s1) = create_symbol (encode s2) -> s1 = s2.
+Proof.
+  intros s1 s2 W1 W2 E. rewrite (create_symbol_undoes_the_encoding s1 W1), (create_symbol_undoes_the_encoding s2 W2) in E. congruence.
+Qed.
